@@ -15,6 +15,8 @@ import (
 
 	goat "github.com/avos-io/goat"
 	"github.com/avos-io/goat/gen/goatorepo"
+	"github.com/avos-io/goat/internal/verifhook"
+	"google.golang.org/grpc"
 	"google.golang.org/protobuf/proto"
 	"google.golang.org/protobuf/types/known/wrapperspb"
 )
@@ -387,6 +389,113 @@ func TestC05ByRef(t *testing.T) {
 					}
 					em.Emit(Rec{Idx: idx, Kind: "c05-byref", Desc: map[string]any{"k": k, "order": order, "how": how, "ids": ids, "pairs": pairs, "abandoned": abandoned},
 						Tags: tags, Coq: fmt.Sprintf("C05Free %d %s %s", k+2, coqList(sids), coqList(ps))})
+					em.Marker("end", idx)
+					idx++
+				}
+			}
+		}
+	}
+}
+
+// ---------------------------------------------------------------- C14: a failed SendMsg and the server's registration
+
+// TestC14SendFail: real client - real server, one stream at a time. A SendMsg
+// whose transport write fails on a healthy connection (one of the five error
+// values of bodyFaultErrs) aborts the stream; the caller drops it (no cancel,
+// no CloseSend: the gRPC contract). The server must be told (RST_STREAM): at
+// the next quiescent point the client has nothing in flight and the server
+// connection's registry must be empty. SendMsg's teardown unregisters the
+// stream and cancels its context in two steps while the stream's loop
+// goroutine decides, from what it sees of them, whether to send the reset:
+// with park = true the sender is held at the yield point cs.teardown.mid
+// BETWEEN the two steps until the loop goroutine has run to its end (the
+// interleaving a loaded machine produces by itself, D-14f). Judged as a
+// two-sample long history (C14Long: reasons 4, 5, 6).
+func TestC14SendFail(t *testing.T) {
+	em := NewEmitter()
+	defer em.Close()
+	idx := 0
+	for _, kind := range []string{"Bidi", "CStream", "SStream"} {
+		for _, park := range []bool{false, true} {
+			for ev := 0; ev < len(bodyFaultErrs); ev++ {
+				for _, after := range []string{"drop", "recv"} {
+					if !want(idx) {
+						idx++
+						continue
+					}
+					em.Marker("begin", idx)
+					var samples []string
+					result := ""
+					leaked := bubble(t, func(t *testing.T) {
+						l := NewLink(false)
+						l.Auto = true
+						srv := newEchoServer("srv", &echoImpl{stream: func(kind string, s grpc.ServerStream) error {
+							for {
+								var m wrapperspb.BytesValue
+								if err := s.RecvMsg(&m); err != nil {
+									return err
+								}
+							}
+						}})
+						sctx, scancel := context.WithCancel(context.Background())
+						go srv.Serve(sctx, l.S)
+						fault := &bodyFaultRW{Endpoint: l.C}
+						fault.nfault.Store(int64(ev))
+						goat.VerifResetTracking()
+						cc := goat.NewClientConn(fault, "c1", "srv")
+						var armed atomic.Bool
+						gate := make(chan struct{})
+						verifhook.SetYield(func(pt string) {
+							if pt == "cs.teardown.mid" && armed.CompareAndSwap(true, false) {
+								<-gate
+							}
+						})
+						defer verifhook.SetYield(nil)
+						sample := func(inflight int) {
+							synctest.Wait()
+							_, loops := clCensus()
+							srvN := -1
+							if cs := goat.VerifServerStreamCounts(); len(cs) == 1 {
+								srvN = cs[0]
+							}
+							samples = append(samples, fmt.Sprintf("(%d, %s, %d, %d, %s)", cc.VerifNumHandlers(), coqZ(int64(loops)), inflight, inflight, coqZ(int64(srvN))))
+						}
+						desc := map[string]*grpc.StreamDesc{"Bidi": descBidi, "CStream": descCStream, "SStream": descSStream}[kind]
+						cs, err := cc.NewStream(context.Background(), desc, "/verif.Echo/"+kind)
+						if err != nil {
+							t.Errorf("NewStream: %v", err)
+							return
+						}
+						sample(1)
+						fault.failNextBody.Store(true)
+						armed.Store(park)
+						sent := make(chan error, 1)
+						go func() { sent <- cs.SendMsg(&wrapperspb.BytesValue{Value: payloadOf(7)}) }()
+						synctest.Wait() // parked between the two steps of the teardown: the loop goroutine runs to its end first
+						close(gate)
+						synctest.Wait()
+						select {
+						case err := <-sent:
+							result = "send:" + classOf(err)
+						default:
+							result = "send:pending"
+						}
+						if after == "recv" {
+							var m wrapperspb.BytesValue
+							result += " recv:" + classOf(cs.RecvMsg(&m))
+						}
+						sample(0)
+						scancel()
+						l.C.FailRead(io.EOF)
+						l.S.FailRead(io.EOF)
+						synctest.Wait()
+					})
+					tags := []string{"kind:" + kind, fmt.Sprintf("sender-parked-mid-teardown=%v", park), fmt.Sprintf("write-error=%d", ev), "then:" + after, "result:" + result}
+					if leaked {
+						tags = append(tags, "leaked-at-end")
+					}
+					em.Emit(Rec{Idx: idx, Kind: "c14-sendfail", Desc: map[string]any{"kind": kind, "park": park, "result": result, "samples": samples},
+						Tags: tags, Coq: "C14Long " + coqList(samples)})
 					em.Marker("end", idx)
 					idx++
 				}
